@@ -80,6 +80,15 @@ func parseFlagsFrom(p *core.Prog, root *ssa.Function) *parseFlagSet {
 		out.fam[f] = true
 		for _, b := range f.Blocks {
 			for _, in := range b.Instrs {
+				// a module function used as a value (compile := CompilePOSIX; compile(text)) may be called through it:
+				// it belongs to the family, without parameter binding
+				for _, op := range in.Operands(nil) {
+					if fv, ok := (*op).(*ssa.Function); ok && fv.Blocks != nil && p.InModule(ownPkg(fv)) {
+						if ci, isCall := in.(ssa.CallInstruction); !isCall || ci.Common().Value != ssa.Value(fv) {
+							walk(fv, map[*ssa.Parameter]int64{}, d+1)
+						}
+					}
+				}
 				c, ok := in.(ssa.CallInstruction)
 				if !ok {
 					continue
@@ -120,7 +129,7 @@ func parseFlagsFrom(p *core.Prog, root *ssa.Function) *parseFlagSet {
 func init() {
 	core.Register(&core.Rule{
 		Name: "R-PARSEFLAGS",
-		Doc: "CompilePOSIX accepts another language than Compile (no \\d, \\pL, (?i), lazy operators, \\z; ^ and $ are line anchors), so the two must hand the parser different flags: distinguishability, as in R-DISTINGUISH. The flags argument of every regexp/syntax.Parse call reached from the entry point through static calls of the module is resolved under constant parameter binding. CompilePOSIX and MustCompilePOSIX must reach a Parse call with the value of syntax.POSIX and none with syntax.Perl; Compile and MustCompile must reach one with syntax.Perl. Where a flags argument is not a constant under the binding (a configuration field), the weaker form decides: a constant of type syntax.Flags with the value of syntax.POSIX occurs in the POSIX entry point's family and not in Compile's. Both constants are read from regexp/syntax. Necessary for C09 (CompilePOSIX succeeds on exactly the patterns regexp.CompilePOSIX accepts) and C10 (POSIX expressions mean what regexp's mean).",
+		Doc: "CompilePOSIX accepts another language than Compile (no \\d, \\pL, (?i), lazy operators, \\z; ^ and $ are line anchors), so the two must hand the parser different flags: distinguishability, as in R-DISTINGUISH. The flags argument of every regexp/syntax.Parse call reached from the entry point through static calls of the module is resolved under constant parameter binding. CompilePOSIX and MustCompilePOSIX must reach a Parse call with the value of syntax.POSIX and none with syntax.Perl; Compile and MustCompile must reach one with syntax.Perl. Where a flags argument is not a constant under the binding (a configuration field), the weaker form decides: a constant of type syntax.Flags with the value of syntax.POSIX occurs in the POSIX entry point's family and not in Compile's. Both constants are read from regexp/syntax. Decoding: (*Regex).UnmarshalText reaches no Parse call with syntax.POSIX - regexp.UnmarshalText always compiles with Compile, whatever the receiver held before (seed C09-18 mirrored Copy and re-used the receiver's POSIX mode). Necessary for C09 (CompilePOSIX succeeds on exactly the patterns regexp.CompilePOSIX accepts) and C10 (POSIX expressions mean what regexp's mean).",
 		Min: 4, NeedSSA: true, ThoroughArchs: []string{},
 		Run: func(p *core.Prog) *core.RuleResult {
 			res := &core.RuleResult{}
@@ -207,6 +216,35 @@ func init() {
 						o.Status = core.Violated
 						o.Detail = "flags travel through memory and nothing in the POSIX entry point's family tells it from Compile's (no syntax.POSIX constant of its own): " + desc
 					}
+				}
+				res.Obligations = append(res.Obligations, o)
+			}
+			// decoding: regexp's UnmarshalText always compiles with Compile, whatever the receiver held before
+			for _, f := range p.SrcFuncs() {
+				if f.Name() != "UnmarshalText" || f.Signature.Recv() == nil || f.Pkg == nil || f.Pkg.Pkg.Path() != core.ModPath || strings.HasSuffix(p.File(f.Pos()), "_test.go") {
+					continue
+				}
+				fs := parseFlagsFrom(p, f)
+				var ks []string
+				for k := range fs.consts {
+					ks = append(ks, fmt.Sprintf("%d", k))
+				}
+				sort.Strings(ks)
+				o := core.Obligation{Key: "R-PARSEFLAGS|" + core.FuncName(f) + "|decoding parses Perl syntax only", Pos: p.Pos(f.Pos()), Nontrivial: true}
+				desc := fmt.Sprintf("%d syntax.Parse call(s) reached; constant flags {%s}; non-constant at %v (syntax.Perl=%d, syntax.POSIX=%d)", fs.sites, strings.Join(ks, ","), fs.unknown, perl, posix)
+				switch {
+				case fs.sites == 0:
+					o.Status = core.Undecided
+					o.Detail = "no syntax.Parse call reached through static calls: " + desc
+				case fs.consts[posix]:
+					o.Status = core.Violated
+					o.Detail = "UnmarshalText can parse the text as POSIX ERE (it reaches a Parse call with syntax.POSIX): regexp.UnmarshalText always uses Compile, so a receiver that held a POSIX expression rejects \\d and (?i) and gives x|xy leftmost-longest meaning after decoding: " + desc
+				case fs.consts[perl] || len(fs.unknown) > 0:
+					o.Status = core.Discharged
+					o.Detail = desc
+				default:
+					o.Status = core.Violated
+					o.Detail = "UnmarshalText never parses with syntax.Perl: " + desc
 				}
 				res.Obligations = append(res.Obligations, o)
 			}
